@@ -101,12 +101,13 @@ def lake_build():
     return time.time() - t
 
 
-AUDIT_TEMPLATE = """import Lean
-import GcmpyModel.Properties.{pid}
+AUDIT_HEAD = """import Lean
+{imports}
 open Lean Elab Command
-run_cmd do
+"""
+AUDIT_BODY = """run_cmd do
   let env ← getEnv
-  let some idx := env.getModuleIdx? `GcmpyModel.Properties.{pid} | throwError "no module"
+  let some idx := env.getModuleIdx? `GcmpyModel.Properties.{mod} | throwError "no module"
   for (n, ci) in env.constants.map₁.toList do
     if env.getModuleIdxFor? n == some idx then
       if let .thmInfo _ := ci then
@@ -116,11 +117,18 @@ run_cmd do
 """
 
 
+def property_modules(pid: str):
+    """Properties/<pid>.lean plus continuation files Properties/<pid><Suffix>.lean (e.g. C01Custom)"""
+    d = LEAN / "GcmpyModel" / "Properties"
+    mods = sorted(f.stem for f in d.glob(f"{pid}*.lean") if re.fullmatch(pid + r"[A-Za-z]*", f.stem))
+    return mods
+
+
 def audit(pid: str):
-    """Returns list of (theorem, axioms) for every theorem declared in Properties/<pid>.lean."""
+    """Returns list of (theorem, axioms) for every theorem declared in the property's module(s)."""
     WORK.mkdir(exist_ok=True)
-    src = (LEAN / "GcmpyModel" / "Properties" / f"{pid}.lean")
-    if not src.exists():
+    mods = property_modules(pid)
+    if not mods:
         raise MachineryError(f"no property file for {pid}")
     # cache on the hash of all lean sources: the audit is a pure function of them
     h = hashlib.sha256()
@@ -131,7 +139,8 @@ def audit(pid: str):
     if cache.exists() and os.environ.get("VERIF_TIER") != "thorough":
         return json.loads(cache.read_text())
     af = WORK / f"Audit_{pid}_{os.getpid()}.lean"
-    af.write_text(AUDIT_TEMPLATE.format(pid=pid))
+    af.write_text(AUDIT_HEAD.format(imports="\n".join(f"import GcmpyModel.Properties.{m}" for m in mods))
+                  + "".join(AUDIT_BODY.format(mod=m) for m in mods))
     try:
         r = subprocess.run(["lake", "env", "lean", str(af)], cwd=LEAN, capture_output=True, text=True)
     finally:
@@ -143,7 +152,7 @@ def audit(pid: str):
         axs = [a.strip() for a in m.group(2).split(",") if a.strip()]
         res.append([m.group(1), axs])
     if not res:
-        raise MachineryError(f"audit found no theorems in Properties/{pid}.lean")
+        raise MachineryError(f"audit found no theorems in Properties/{pid}*.lean")
     res.sort()
     for old in WORK.glob(f"audit_{pid}_*.json"):
         old.unlink(missing_ok=True)
@@ -153,7 +162,7 @@ def audit(pid: str):
 
 def partial_statements(pid: str):
     """names of `def …_full : Prop` statements kept visible but unproved, and `_partial` theorems"""
-    src = (LEAN / "GcmpyModel" / "Properties" / f"{pid}.lean").read_text()
+    src = "\n".join((LEAN / "GcmpyModel" / "Properties" / f"{m}.lean").read_text() for m in property_modules(pid))
     code = strip_lean_comments(src)
     full = re.findall(r"^def\s+(\S+_full)\b", code, re.M)
     part = re.findall(r"^theorem\s+(\S+_partial)\b", code, re.M)
@@ -177,7 +186,7 @@ def check_proofs(pid: str, thorough=False):
         raise MachineryError(f"theorems with unaccepted axioms: {bad[:5]}")
     if thorough:
         t = time.time()
-        mods = [f"GcmpyModel.Properties.{pid}"]
+        mods = [f"GcmpyModel.Properties.{m}" for m in property_modules(pid)]
         r = subprocess.run(["lake", "env", "leanchecker"] + mods, cwd=LEAN, capture_output=True, text=True)
         info["leanchecker"] = {"modules": mods, "returncode": r.returncode, "wall_s": round(time.time() - t, 1),
                                "tail": (r.stdout + r.stderr)[-300:]}
